@@ -46,7 +46,7 @@ def unchanged (n : Nat) (a b : State) : Bool := sameLists n a b && sameObjs a b
 def Op.atomic : Op → Bool
   | .add .. | .addPtr .. | .share .. | .setParam .. | .setValue .. | .setAllValues ..
   | .setValues .. | .testValues .. | .matchValues .. | .delName .. | .delIdx ..
-  | .subNames .. | .subName .. | .subIdxs .. | .subIdx .. | .shareSubNames .. | .shareSubIdxs ..
+  | .subNames .. | .subName .. | .subIdxs .. | .subIdx ..
   | .which .. | .getValue .. | .apSetAll .. | .apSetValue .. | .apSetValues .. | .apMatch .. => true
   | .delIdxs _ idx => decide idx.Nodup
   | _ => false
@@ -93,12 +93,173 @@ def clauseNames (n : Nat) (b : State) (op : Op) (a : State) : Bool :=
 def clauseOk (n : Nat) (b : State) (a : State) : Bool :=
   !(allOk n b) || allOk n a
 
+
+/-! ### specification-level expectations, read off the state before the call -/
+
+/-- what a successful `setParametersValues` / `matchParametersValues` leaves in object `i`:
+if some source entry's name resolves to `i` in the target list, `i` holds that entry's value -/
+def expectedSome (h : Store) (l src : List ObjId) (i : ObjId) : Par :=
+  match src.find? (fun s => find? h l (nameOf h s) == some i) with
+  | some s => { h.get i with value := (h.get s).value }
+  | none => h.get i
+
+/-- what a successful `setAllParametersValues` leaves in object `i` -/
+def expectedAll (h : Store) (l src : List ObjId) (i : ObjId) : Par :=
+  if i ∈ l then
+    match find? h src (nameOf h i) with
+    | some j => { h.get i with value := (h.get j).value }
+    | none => h.get i
+  else h.get i
+
+/-- the first pass of the source-iterating setters accepts every matching value -/
+def acceptsSome (h : Store) (l src : List ObjId) : Bool :=
+  src.all (fun s => match find? h l (nameOf h s) with
+    | some t => !(h.get t).rejects (h.get s).value
+    | none => true)
+
+/-- the first pass of `setAllParametersValues` finds and accepts a value for every entry -/
+def acceptsAll (h : Store) (l src : List ObjId) : Bool :=
+  l.all (fun i => match find? h src (nameOf h i) with
+    | some j => !(h.get i).rejects (h.get j).value
+    | none => false)
+
+/-- clause `bulk_applies` (+ raise condition of `bulk_atomic`) -/
+def clauseApplies (b : State) (op : Op) (out : Out) (a : State) : Bool :=
+  match op with
+  | .setValues k j | .matchValues k j _ | .apSetValues k j | .apMatch k j =>
+    (out.isErr == !acceptsSome b.heap (b.lists k) (b.lists j)) &&
+    (out.isErr || !namesUniqueB b j ||
+      decide (∀ i, i < b.heap.next → a.heap.get i = expectedSome b.heap (b.lists k) (b.lists j) i))
+  | .testValues k j => out.isErr == !acceptsSome b.heap (b.lists k) (b.lists j)
+  | .setAllValues k j | .apSetAll k j =>
+    (out.isErr == !acceptsAll b.heap (b.lists k) (b.lists j)) &&
+    (out.isErr || !namesUniqueB b k ||
+      decide (∀ i, i < b.heap.next → a.heap.get i = expectedAll b.heap (b.lists k) (b.lists j) i))
+  | _ => true
+
+/-- clause `match_flag_exact`: flag, out-vector and notification list -/
+def clauseMatch (b : State) (op : Op) (out : Out) (fired : Option (List ObjId)) : Bool :=
+  match op with
+  | .matchValues k j w =>
+    out.isErr || !namesUniqueB b j ||
+      (let d := diffPos b.heap (b.lists k) 0 (b.lists j)
+       out == .flag (d ≠ []) (if w then some d else none))
+  | .testValues k j =>
+    out.isErr || (out == .flag (diffPos b.heap (b.lists k) 0 (b.lists j) ≠ []) none)
+  | .apMatch k j =>
+    out.isErr || !namesUniqueB b j ||
+      (let d := diffPos b.heap (b.lists k) 0 (b.lists j)
+       out == .flag (d ≠ []) none &&
+       fired == (if d = [] then none else some (d.filterMap ((b.lists j)[·]?))))
+  | .apSetAll _ j | .apSetValues _ j => fired == (if out.isErr then none else some (b.lists j))
+  | _ => true
+
+/-- clause `copy_independent` / `sublist_independent`: the destination holds fresh, pairwise
+different objects showing the selected entries -/
+def freshWith (b a : State) (j : Nat) (content : List Par) : Bool :=
+  decide ((a.lists j).map a.heap.get = content) &&
+  (a.lists j).all (fun i => decide (b.heap.next ≤ i)) && decide (a.lists j).Nodup
+
+def clauseFresh (b : State) (op : Op) (out : Out) (a : State) : Bool :=
+  match op with
+  | .copy k j | .assign k j => freshWith b a j ((b.lists k).map b.heap.get)
+  | .subNames k j ns =>
+    if decide ns.Nodup && ns.all (fun n => (find? b.heap (b.lists k) n).isSome) then
+      out == .ok && freshWith b a j ((ns.filterMap (find? b.heap (b.lists k))).map b.heap.get)
+    else out.isErr
+  | .subName k j n =>
+    match find? b.heap (b.lists k) n with
+    | some i => out == .ok && freshWith b a j [b.heap.get i]
+    | none => out == .err .notfound
+  | .subIdxs k j idx =>
+    !namesUniqueB b k || !decide idx.Nodup ||
+      (out == .ok && freshWith b a j ((idx.filterMap ((b.lists k)[·]?)).map b.heap.get))
+  | .subIdx k j i =>
+    out == .ok && freshWith b a j ((([i] : List Nat).filterMap ((b.lists k)[·]?)).map b.heap.get)
+  | .common k j m =>
+    out == .ok && freshWith b a m
+      (((b.lists j).filter (fun s => hasParameter b.heap (b.lists k) (nameOf b.heap s))).map b.heap.get)
+  | _ => true
+
+/-- clause `share_aliases`: shared sub-lists and shared parameters are the same objects -/
+def clauseShare (b : State) (op : Op) (out : Out) (a : State) : Bool :=
+  match op with
+  | .shareSubNames k j ns =>
+    if ns.all (fun n => (find? b.heap (b.lists k) n).isSome) then
+      !decide ns.Nodup || (out == .ok && a.lists j == ns.filterMap (find? b.heap (b.lists k)))
+    else out.isErr
+  | .shareSubIdxs k j idx =>
+    !namesUniqueB b k || !decide idx.Nodup ||
+      (out == .ok && a.lists j == idx.filterMap ((b.lists k)[·]?))
+  | .share k j n =>
+    match find? b.heap (b.lists j) n with
+    | none => out == .err .notfound
+    | some i =>
+      if hasParameter b.heap (b.lists k) n then a.lists k == b.lists k
+      else out == .ok && a.lists k == b.lists k ++ [i]
+  | _ => true
+
+/-- clause `delete_indices_exact` / `delete_name_exact` -/
+def clauseDelete (b : State) (op : Op) (out : Out) (a : State) : Bool :=
+  match op with
+  | .delIdxs k idx =>
+    !decide idx.Nodup ||
+      (if idx.all (fun d => decide (d < (b.lists k).length)) then
+        out == .ok && a.lists k == keepFrom idx 0 (b.lists k)
+       else out == .err .index && a.lists k == b.lists k)
+  | .delIdx k i =>
+    if i < (b.lists k).length then out == .ok && a.lists k == (b.lists k).eraseIdx i
+    else out == .err .index && a.lists k == b.lists k
+  | .delName k n =>
+    if hasParameter b.heap (b.lists k) n then
+      out == .ok && names b.heap (a.lists k) == (names b.heap (b.lists k)).erase n
+    else out == .err .notfound && a.lists k == b.lists k
+  | _ => true
+
+/-- clause `add_dup_refused` -/
+def clauseAdd (b : State) (op : Op) (out : Out) (a : State) : Bool :=
+  match op with
+  | .add k p | .addPtr k p =>
+    if !p.ok then out == .err .constraint
+    else if hasParameter b.heap (b.lists k) p.name then out == .err .bpp
+    else out == .ok &&
+      (match (a.lists k).getLast? with
+       | some i => decide (b.heap.next ≤ i) && a.heap.get i == p && a.lists k == b.lists k ++ [i]
+       | none => false)
+  | _ => true
+
+/-- clause `lookup_exact` -/
+def clauseLookup (b : State) (op : Op) (out : Out) : Bool :=
+  match op with
+  | .which k n =>
+    (match out with
+     | .nat i => (names b.heap (b.lists k))[i]? == some n &&
+         (List.range i).all (fun j => (names b.heap (b.lists k))[j]? != some n)
+     | .err .notfound => !(names b.heap (b.lists k)).contains n
+     | _ => false)
+  | .has k n => out == .bool ((names b.heap (b.lists k)).contains n)
+  | .names k => out == .strs (names b.heap (b.lists k))
+  | .size k => out == .nat (b.lists k).length
+  | .getValue k n =>
+    (match find? b.heap (b.lists k) n with
+     | some i => out == .val (b.heap.get i).value
+     | none => out == .err .notfound)
+  | _ => true
+
 /-- all clauses; `none` = every clause holds, `some c` = clause `c` is false -/
-def checkStep (n : Nat) (b : State) (op : Op) (out : Out) (a : State) : Option String :=
+def checkStep (n : Nat) (b : State) (op : Op) (out : Out) (fired : Option (List ObjId)) (a : State) :
+    Option String :=
   if !clauseNames n b op a then some "names_unique"
   else if !clauseOk n b a then some "list_param_inv"
   else if !clauseAtomic n b op out a then some "bulk_atomic"
   else if !clauseFrame n b op a then some "frame"
+  else if !clauseApplies b op out a then some "bulk_applies"
+  else if !clauseMatch b op out fired then some "match_flag_exact"
+  else if !clauseFresh b op out a then some "copy_independent"
+  else if !clauseShare b op out a then some "share_aliases"
+  else if !clauseDelete b op out a then some "delete_exact"
+  else if !clauseAdd b op out a then some "add_dup_refused"
+  else if !clauseLookup b op out then some "lookup_exact"
   else none
 
 end Bpp.ParamList
